@@ -53,7 +53,7 @@ PROBES = {
     "str_filter": "{{ obj|string|upper }}", "trim": "{{ obj|trim }}", "format": "{{ '%s'|format(obj) }}", "tilde": "{{ obj ~ fn(@) }}",
 }
 PROBE_KINDS = sorted(PROBES)
-WRAPPERS = ["if", "for", "with", "filter", "setblock", "macro", "call"]
+WRAPPERS = ["if", "for", "with", "filter", "setblock", "macro", "call", "autoesc"]
 EXC_KINDS = ["plain", "arith", "runtime"]
 ENTRIES_SYNC = ["render", "generate", "stream"]
 ENTRIES_ASYNC = ["render", "render_async", "generate_async", "generate"]
@@ -162,7 +162,10 @@ def make_data(ev, is_async):
         ev.hit("fn")
         return "f%s" % x
 
-    data = {"fn": fn, "obj": Obj(0), "it": It([3, 1, 2, 1]), "objs": [Obj(1), Obj(2)]}
+    from markupsafe import Markup
+
+    # "mk" is plain data (no events): joining it consults the runtime autoescape setting
+    data = {"fn": fn, "obj": Obj(0), "it": It([3, 1, 2, 1]), "objs": [Obj(1), Obj(2)], "mk": [Markup("<i>"), "b"]}
     return data
 
 
@@ -220,9 +223,10 @@ def cases(draw, depth=2):
 
 
 class _P:
-    def __init__(self):
+    def __init__(self, ae=False):
         self.n = 0
         self.blocks = 0
+        self.ae = ae
 
 
 def _print(nodes, p, structural):
@@ -266,6 +270,11 @@ def _print(nodes, p, structural):
                 out.append("{%% macro mc%d(a) %%}%s{%% endmacro %%}{{ mc%d(1) }}" % (p.n, inner, p.n))
             elif w == "call":
                 out.append("{% call cbh() %}" + inner + "{% endcall %}")
+            elif w == "autoesc":
+                # flips the setting for the body; the join afterwards consults the runtime setting, so a
+                # setting that is not restored (the module context of 'lib' outlives the render) shows
+                out.append("{% autoescape " + ("false" if p.ae else "true") + " %}" + inner
+                           + "{% endautoescape %}{{ mk|join('<') }}")
             elif w == "block":
                 p.blocks += 1
                 out.append("{%% block b%d %%}%s{%% endblock %%}" % (p.blocks, inner))
@@ -279,20 +288,21 @@ def print_set(case):
     t = case["tpls"]
     structural = set()
     srcs = {}
-    p = _P()
+    ae = bool(case.get("autoescape"))
+    p = _P(ae)
     main_body = _print(t["main"], p, structural)
     if case["ext"]:
         # child: content must live in a block to render; wrap the whole body in the block the base defines
         srcs["main"] = "{% extends 'base' %}" + HELPER + "{% block content %}" + main_body + "{{ super() }}{% endblock %}"
-        pb = _P()
+        pb = _P(ae)
         pb.blocks = 100
         srcs["base"] = HELPER + "[" + "{% block content %}" + _print(t["base"], pb, structural) + "{% endblock %}]"
     else:
         srcs["main"] = HELPER + main_body
-    pl = _P()
+    pl = _P(ae)
     pl.blocks = 200
     srcs["lib"] = HELPER + _print(t["lib"], pl, set()) + "{% set top = fn(9) %}{% macro m(a) %}" + _print(t["libmacro"], pl, set()) + "{% endmacro %}"
-    pi = _P()
+    pi = _P(ae)
     pi.blocks = 300
     srcs["inc"] = HELPER + _print(t["inc"], pi, set())
     srcs["other"] = "other {{ fn(1) }} {% import 'lib' as L %}{{ L.m(3) }}"
